@@ -25,6 +25,8 @@ fn main() {
         ("", "Greeter", vec![method("m", "M", "JsonCodec", true)]),
         ("p", "Greeter", vec![]),
         ("a.b", "S", vec![method("m", "M", "BincodeCodec", false), method("mm", "MM", "JsonCodec", false)]),
+        // its full name has another service's full name ("Greeter") as a proper prefix
+        ("", "GreeterAdmin", vec![method("m", "M", "BincodeCodec", false)]),
     ] {
         let mut b = Service::builder().name(name).package(package);
         for m in methods {
